@@ -1,7 +1,8 @@
 import FranzVerif.Model.Close
 /-! C13 — Close always finishes and leaves nothing running (PARTIAL: the wall-clock bound and the absence of
 leftover goroutines are runtime behaviour; they are observed by the harness inside synctest bubbles — virtual
-time, and the bubble's refusal to end with blocked goroutines — and enter the monitor as events). Theorems
+time, the bubble's refusal to end with blocked goroutines, and a count of the goroutines that still have a frame
+of the client package once Close has returned — and enter the monitor as events). Theorems
 over ALL accepted histories of `Model.Close`. -/
 namespace Props.C13
 open Model.Close
@@ -10,11 +11,12 @@ open Model.Close
 def Good (c : Cfg) (h : List Ev) (s : St) : Prop :=
   s.promised.Nodup ∧ (∀ i ∈ s.promised, i ∈ s.produced) ∧
   (∀ i, i ∈ s.produced ↔ Ev.produce i ∈ h) ∧ (∀ i, i ∈ s.promised ↔ ∃ ok, Ev.promise i ok ∈ h) ∧
-  (s.closed = true ↔ ∃ ms, Ev.closeEnd ms ∈ h) ∧ (∀ ms, Ev.closeEnd ms ∈ h → ms ≤ c.boundMs) ∧ Ev.leaked ∉ h
+  (s.closed = true ↔ ∃ ms, Ev.closeEnd ms ∈ h) ∧ (∀ ms, Ev.closeEnd ms ∈ h → ms ≤ c.boundMs) ∧ Ev.leaked ∉ h ∧
+  (∀ n, Ev.leftover n ∈ h → n = 0) ∧ (s.leftChecked = true ↔ Ev.leftover 0 ∈ h)
 
 theorem good_step (c : Cfg) (h : List Ev) (s₀ s : St) (e : Ev) (hg : Good c h s₀) (hs : step c s₀ e = some s) :
     Good c (h ++ [e]) s := by
-  obtain ⟨ih1, ih2, ih3, ih4, ih5, ih6, ih7⟩ := hg
+  obtain ⟨ih1, ih2, ih3, ih4, ih5, ih6, ih7, ih8, ih9⟩ := hg
   unfold step at hs
   cases hc : check c s₀ e with
   | some r => simp [hc] at hs
@@ -24,23 +26,29 @@ theorem good_step (c : Cfg) (h : List Ev) (s₀ s : St) (e : Ev) (hg : Good c h 
     cases e with
     | produce id =>
       simp only [check] at hc
-      refine ⟨ih1, ?_, ?_, ?_, ?_, ?_, ?_⟩ <;> simp_all [apply] <;> grind
+      refine ⟨ih1, ?_, ?_, ?_, ?_, ?_, ?_, ?_, ?_⟩ <;> simp_all [apply] <;> grind
     | promise id ok =>
       simp only [check] at hc
       have h1 : s₀.produced.contains id = true := by
         cases hh : s₀.produced.contains id <;> simp_all
       have h2 : s₀.promised.contains id = false := by
         cases hh : s₀.promised.contains id <;> simp_all
-      refine ⟨?_, ?_, ?_, ?_, ?_, ?_, ?_⟩ <;> simp_all [apply] <;> grind
-    | closeStart => refine ⟨ih1, ih2, ?_, ?_, ?_, ?_, ?_⟩ <;> simp_all [apply]
+      refine ⟨?_, ?_, ?_, ?_, ?_, ?_, ?_, ?_, ?_⟩ <;> simp_all [apply] <;> grind
+    | closeStart => refine ⟨ih1, ih2, ?_, ?_, ?_, ?_, ?_, ?_, ?_⟩ <;> simp_all [apply] <;> grind
     | closeEnd ms =>
       simp only [check] at hc
       have hb : ms ≤ c.boundMs := by
         by_cases hcl : s₀.closing = true <;> simp_all
-      refine ⟨ih1, ih2, ?_, ?_, ?_, ?_, ?_⟩ <;> simp_all [apply] <;> grind
-    | pollAfterClose cl => refine ⟨ih1, ih2, ?_, ?_, ?_, ?_, ?_⟩ <;> simp_all [apply]
+      refine ⟨ih1, ih2, ?_, ?_, ?_, ?_, ?_, ?_, ?_⟩ <;> simp_all [apply] <;> grind
+    | pollAfterClose cl => refine ⟨ih1, ih2, ?_, ?_, ?_, ?_, ?_, ?_, ?_⟩ <;> simp_all [apply] <;> grind
     | leaked => simp [check] at hc
-    | quiesce => refine ⟨ih1, ih2, ?_, ?_, ?_, ?_, ?_⟩ <;> simp_all [apply]
+    | leftover n =>
+      simp only [check] at hc
+      have hn : n = 0 := by
+        by_cases hcl : s₀.closed = true <;> simp_all
+      subst hn
+      refine ⟨ih1, ih2, ?_, ?_, ?_, ?_, ?_, ?_, ?_⟩ <;> simp_all [apply] <;> grind
+    | quiesce => refine ⟨ih1, ih2, ?_, ?_, ?_, ?_, ?_, ?_, ?_⟩ <;> simp_all [apply] <;> grind
 
 theorem good_run (c : Cfg) (h pre : List Ev) (s₁ s : St) (hg : Good c pre s₁) (hr : run c s₁ h = some s) :
     Good c (pre ++ h) s := by
@@ -77,21 +85,23 @@ theorem run_snoc (c : Cfg) (h : List Ev) (e : Ev) (s : St) :
     | some s' => simpa using ih s'
 
 /-- In every accepted history Close returned within the bound whenever it returned, no promise ran twice or
-for something not produced, and no goroutine leak was observed. -/
+for something not produced, no goroutine leak was observed, and every count of the client's goroutines taken
+after Close was zero. -/
 theorem close_bounded_and_clean (c : Cfg) (h : List Ev) (s : St) (hacc : run c {} h = some s) :
-    (∀ ms, Ev.closeEnd ms ∈ h → ms ≤ c.boundMs) ∧ Ev.leaked ∉ h ∧
+    (∀ ms, Ev.closeEnd ms ∈ h → ms ≤ c.boundMs) ∧ Ev.leaked ∉ h ∧ (∀ n, Ev.leftover n ∈ h → n = 0) ∧
     (∀ i ok, Ev.promise i ok ∈ h → Ev.produce i ∈ h) := by
-  obtain ⟨_, h2, h3, h4, _, h6, h7⟩ := promised_sound c h s hacc
-  refine ⟨h6, h7, ?_⟩
+  obtain ⟨_, h2, h3, h4, _, h6, h7, h8, _⟩ := promised_sound c h s hacc
+  refine ⟨h6, h7, h8, ?_⟩
   intro i ok hi
   exact (h3 i).1 (h2 i ((h4 i).2 ⟨ok, hi⟩))
 
-/-- A history accepted up to its quiescent point: Close returned, every produce promise was called, and a
-poll after Close reported ErrClientClosed. -/
+/-- A history accepted up to its quiescent point: Close returned, every produce promise was called, a
+poll after Close reported ErrClientClosed, and the client's goroutines were counted after Close: none remained. -/
 theorem after_close_everything_finished (c : Cfg) (h : List Ev) (s : St) (hacc : run c {} (h ++ [Ev.quiesce]) = some s) :
-    (∃ ms, Ev.closeEnd ms ∈ h ∧ ms ≤ c.boundMs) ∧ (∀ i, Ev.produce i ∈ h → ∃ ok, Ev.promise i ok ∈ h) := by
+    (∃ ms, Ev.closeEnd ms ∈ h ∧ ms ≤ c.boundMs) ∧ (∀ i, Ev.produce i ∈ h → ∃ ok, Ev.promise i ok ∈ h) ∧
+    Ev.leftover 0 ∈ h ∧ (∀ n, Ev.leftover n ∈ h → n = 0) ∧ Ev.leaked ∉ h := by
   obtain ⟨s₀, h₀, hs⟩ := (run_snoc c h Ev.quiesce s).1 hacc
-  obtain ⟨_, _, h3, h4, h5, h6, _⟩ := promised_sound c h s₀ h₀
+  obtain ⟨_, _, h3, h4, h5, h6, h7, h8, h9⟩ := promised_sound c h s₀ h₀
   unfold step at hs
   cases hc : check c s₀ Ev.quiesce with
   | some r => simp [hc] at hs
@@ -99,15 +109,17 @@ theorem after_close_everything_finished (c : Cfg) (h : List Ev) (s : St) (hacc :
     simp only [check] at hc
     have hclosed : s₀.closed = true := by
       cases hh : s₀.closed <;> simp_all
+    have hpolled : s₀.polled = true := by
+      cases hh : s₀.polled <;> simp_all
+    have hleft : s₀.leftChecked = true := by
+      cases hh : s₀.leftChecked <;> simp_all
     have hall : ∀ i ∈ s₀.produced, s₀.promised.contains i = true := by
       intro i hi
-      by_cases hp : s₀.polled = true
-      · simp [hclosed, hp] at hc
-        have := hc i hi
-        simpa using this
-      · simp [hclosed, hp] at hc
+      simp [hclosed, hpolled, hleft] at hc
+      have := hc i hi
+      simpa using this
     obtain ⟨ms, hms⟩ := h5.1 hclosed
-    refine ⟨⟨ms, hms, h6 ms hms⟩, ?_⟩
+    refine ⟨⟨ms, hms, h6 ms hms⟩, ?_, h9.1 hleft, h8, h7⟩
     intro i hi
     have := hall i ((h3 i).2 hi)
     exact (h4 i).1 (by simpa using this)
@@ -115,8 +127,12 @@ theorem after_close_everything_finished (c : Cfg) (h : List Ev) (s : St) (hacc :
 /-- Non-vacuity: a client closed mid-produce whose outstanding promises are failed by Close. -/
 example : accepts { boundMs := 60000 }
     [.produce 1, .promise 1 true, .produce 2, .produce 3, .closeStart, .promise 2 false, .closeEnd 2651,
-     .promise 3 false, .pollAfterClose true, .quiesce] = true := by decide
-example : accepts { boundMs := 60000 } [.produce 1, .closeStart, .closeEnd 10, .pollAfterClose true, .quiesce] = false := by decide
+     .promise 3 false, .pollAfterClose true, .leftover 0, .quiesce] = true := by decide
+example : accepts { boundMs := 60000 } [.produce 1, .closeStart, .closeEnd 10, .pollAfterClose true, .leftover 0, .quiesce] = false := by decide
+/-- a consumer whose fetch-concurrency manager is still blocked in its select after Close is refused -/
+example : accepts { boundMs := 60000 } [.closeStart, .closeEnd 1, .pollAfterClose true, .leftover 1, .quiesce] = false := by decide
+example : accepts { boundMs := 60000 } [.closeStart, .closeEnd 1, .pollAfterClose true, .quiesce] = false := by decide
+example : accepts { boundMs := 60000 } [.closeStart, .closeEnd 1, .pollAfterClose true, .leftover 0, .quiesce] = true := by decide
 example : accepts { boundMs := 60000 } [.closeStart, .closeEnd 70000] = false := by decide
 
 end Props.C13
